@@ -22,8 +22,9 @@ Lemma nwm_copy_in n : nwm (copy_in n). Proof. intro s. constructor. intro. const
 Lemma nwm_get_hint : nwm get_hint. Proof. intro s. constructor. intro. constructor. exact I. Qed.
 Lemma nwm_fail_dec {A} : nwm (@fail A ERR_DECRUNCH). Proof. apply nwm_fail. intro H. vm_compute in H. discriminate. Qed.
 Lemma nwm_fail_99 {A} : nwm (@fail A 99). Proof. apply nwm_fail. discriminate. Qed.
+Lemma nwm_fail_oob {A} : nwm (@fail A OOB). Proof. apply nwm_fail. discriminate. Qed.
 Create HintDb nw.
-#[export] Hint Resolve nwm_ret nwm_fail_dec nwm_fail_99 nwm_get nwm_put nwm_modify nwm_avail nwm_next nwm_copy_in nwm_get_hint : nw.
+#[export] Hint Resolve nwm_ret nwm_fail_dec nwm_fail_99 nwm_fail_oob nwm_get nwm_put nwm_modify nwm_avail nwm_next nwm_copy_in nwm_get_hint : nw.
 
 Ltac nw := repeat (match goal with
   | |- nwm (bnd _ _) => apply nwm_bnd
